@@ -24,6 +24,22 @@ sys.path.insert(0, str(Path(__file__).resolve().parent.parent / "translate"))
 import settings as settings_T  # noqa: E402
 import options as options_T  # noqa: E402
 
+MODELLED = ['evo/main_config.py:is_number',
+            'evo/main_config.py:finalize_values',
+            'evo/main_config.py:set_config',
+            'evo/main_config.py:is_option',
+            'evo/main_config.py:to_number',
+            'evo/main_config.py:generate',
+            'evo/main_config.py:merge_json_union',
+            'evo/main_config.py:main',
+            'evo/tools/settings.py:merge_dicts',
+            'evo/tools/settings.py:reset',
+            'evo/tools/settings.py:update_if_outdated',
+            'evo/tools/settings.py:SettingsContainer.__setattr__',
+            'evo/tools/settings.py:SettingsContainer.locked',
+            'evo/tools/settings.py:SettingsContainer.update_existing_keys',
+            'evo/entry_points.py:merge_config']
+
 RULE = ("cases = tok(token) from the modelled decimal alphabet plus junk; hist(ops) = random histories (3-8 steps) of set "
         "(random keys, values of every type, toggles, true/false spellings, [] / none, several keys per call), reset subset, "
         "reset all, merge soft/hard with a random other file (known + unknown keys), upgrade (keys deleted, version file "
@@ -201,7 +217,7 @@ def rand_other(r, keys):
     d = {}
     for _ in range(r.randint(1, 4)):
         k = r.choice(keys + ["extra_a", "extra_b"])
-        d[k] = r.choice([True, False, 3, 2.5, "text", [1, 2], ["a"], -7, 0.1])
+        d[k] = r.choice([True, False, 3, 2.5, "text", [1, 2], ["a"], -7, 0.1, 0, "", [], 0.0])
     return d
 
 
@@ -222,7 +238,18 @@ def gen_cases(ctx):
         ops = []
         sim = dict(D)
         for _ in range(r.randint(3, 8)):
-            o = r.choice(["set", "set", "set", "set_cli", "reset_sub", "reset_sub_cli", "reset_all", "merge", "merge_cli", "upgrade"])
+            o = r.choice(["set", "set", "set", "set_cli", "reset_sub", "reset_sub_cli", "reset_all", "merge", "merge_cli", "upgrade",
+                          "falsy"])
+            if o == "falsy":
+                ops.append({"op": "set", "args": r.choice([["plot_seaborn_enabled", "false", "plot_statistics", "none"],
+                                                           ["plot_linewidth", "0", "plot_xyz_realistic", "false"],
+                                                           ["tf_cache_lookup_frequency", "0", "plot_figsize", "[]"],
+                                                           ["plot_fontscale", "2.5e0", "plot_reference_alpha", "1e-3"]])})
+                ops.append(r.choice([{"op": "upgrade", "drop": r.sample(list(D), 2)},
+                                     {"op": "merge", "soft": True, "other": {"plot_seaborn_enabled": True, "plot_linewidth": 9,
+                                                                           "plot_statistics": ["x"], "plot_figsize": [1, 1],
+                                                                           "tf_cache_lookup_frequency": 5, "plot_xyz_realistic": True}}]))
+                continue
             if o in ("set", "set_cli"):
                 ops.append({"op": o, "args": rand_set_args(r, keys, sim)})
             elif o in ("reset_sub", "reset_sub_cli"):
@@ -641,6 +668,7 @@ def pre_build():
 
 def check(ctx):
     lean = core.lean_side(ctx.prop, ctx.tier, pre_build=pre_build)
+    core.drift(ctx, MODELLED)
     cases = list(gen_cases(ctx))
     evaluate(ctx, cases)
     core.shrink_all(ctx, shrink, evaluate, budget=60)
